@@ -11,7 +11,16 @@ def main():
         model = unit['model']
         if model == 'cuckoo':
             from . import m_cuckoo
-            if unit['op'] == 'union':
+            if unit['op'] == 'validate':
+                import random
+                rng = random.Random(unit.get('seed', 0))
+                cases = [m_cuckoo.random_case(rng, rng.choice(['insert', 'insert', 'delete', 'query'])) for _ in range(unit.get('n', 24))]
+                r = {'paths': 0, 'queries': 0, 'failed': [], 'witnesses': {}, 'cexs': {}, 'cases': []}
+                for c in cases:
+                    e = m_cuckoo.eval_concrete(fns, c)
+                    r['queries'] += 1
+                    r['cases'].append({'case': c, 'encoding': e})
+            elif unit['op'] == 'union':
                 r = m_cuckoo.run_union(fns, unit['bs'], unit['nb'], unit['kicks'], unit.get('b_mask'))
             else:
                 r = m_cuckoo.run_single(fns, unit['op'], unit['bs'], unit['nb'], unit['kicks'])
